@@ -39,6 +39,7 @@ profile('core-ids-ends', P.gen_ids, cancels=0.0, errors=False, stall_faults=0.0,
 profile('parser', XP.gen_parser)
 
 profile('cut', P.gen_cut)
+profile('cut-msg', P.gen_cut, framing=[(1, 'ws')])
 profile('cut-sweep', P.gen_cut_base, sweep='cut', max_points=500,
         n_interactions=[(2, 1), (3, 2), (2, 3)])
 profile('cut-sweep-full', P.gen_cut_base, sweep='cut', max_points=10**9, small=True,
@@ -97,14 +98,14 @@ CHECKS = {
             'oracles': {'core-ids': [O.oracle_c13], 'core': [O.oracle_c13], 'id-reuse': [PH.oracle_c13_reuse]},
             'level': 'exploration'},
     'C07': {'profiles': [('core-cancel', 2000, 80000), ('core-ends', 2000, 80000), ('core', 1000, 40000),
-                         ('peer-script', 12000, 400000), ('cut', 2000, 80000)],
+                         ('peer-script', 12000, 400000), ('cut', 2000, 80000), ('cut-msg', 1000, 40000)],
             'oracles': {'core-cancel': [O.oracle_c07], 'core-ends': [O.oracle_c07], 'core': [O.oracle_c07],
-                        'cut': [O.oracle_c07], 'peer-script': [PP.oracle_c07_peer]}, 'level': 'exploration'},
+                        'cut': [O.oracle_c07], 'cut-msg': [O.oracle_c07], 'peer-script': [PP.oracle_c07_peer]}, 'level': 'exploration'},
     'C09': {'profiles': [('core-cancel', 4000, 150000), ('cancel-sweep', 60, 2500), ('core-lease', 1000, 40000),
                          ('rx', 3000, 100000)],
             'oracles': {'core-cancel': [O.oracle_c09], 'cancel-sweep': [O.oracle_c09], 'core-lease': [O.oracle_c09],
                         'rx': [XRX.oracle_c09_rx]}, 'level': 'exploration'},
-    'C11': {'profiles': [('cut', 4000, 150000), ('cut-sweep', 32, 1000), ('cut-sweep-full', 12, 400)],
+    'C11': {'profiles': [('cut', 4000, 150000), ('cut-msg', 2000, 60000), ('cut-sweep', 32, 1000), ('cut-sweep-full', 12, 400)],
             'oracles': [O.oracle_c11], 'level': 'fault_enumeration'},
     'C14': {'profiles': [('lease-req', 12000, 400000), ('lease-resp', 3000, 100000), ('reconnect-lease', 3000, 100000)],
             'oracles': {'lease-req': [PP.oracle_c14], 'lease-resp': [PP.oracle_c14], 'reconnect-lease': [XR.oracle_c14_reconnect]},
@@ -297,7 +298,9 @@ MANIFEST_TEXT.update({
                     'either side at every loop iteration is visited (stride-subsampled above a cap, reported), plus a seeded '
                     'swarm. Oracle after the settle window: nothing requested before the loss is left pending, producers '
                     'cancelled, on_close exactly once per endpoint, no frame queued or written afterwards, tasks finished.',
-            'note': 'ByteLink cuts only (anchor transports/tcp.py); interactions started after the fault fired are not judged'},
+            'note': 'byte-offset enumeration over the TCP framing (anchor transports/tcp.py); the swarm also runs the aiohttp websocket '
+                    'transports over the message link (loss in place of the n-th message, aiohttp semantics: the iteration ends '
+                    'without raising); requests issued after the loss are judged at that endpoint\'s own later close()'},
 })
 
 _PEER = ('one real endpoint against a scripted RawPeer that speaks through the harness\'s own codec; pure discrete-event time '
